@@ -332,6 +332,7 @@ theorem typesIn_wf : âˆ€ (n : Nat) (x : Val), sizeOf x â‰¤ n â†’ cmp x = true â†
     | sensitive v => simp [cmp] at hc
     | deferred n as => simp [cmp] at hc
     | param n t hv v c => simp [cmp] at hc
+    | obj t vs => simp [cmp] at hc
     | _ => simp [typesIn] at ha
 
 /-- the former second hypothesis of `C07_key_iff` holds for all comparable values: equal types have equal keys -/
